@@ -71,6 +71,15 @@ def harvest(src):
         if not (os.path.exists(patch) and os.path.exists(demo)):
             print(pid, x, 'missing files'); continue
         v = verify(patch, demo)
+        if not (v['applies'] and v['demo_exit_original'] == 0 and v['demo_exit_changed'] != 0):
+            # demos that hard-wire their worktree path (e.g. CLI subprocess demos): verify in the worktree itself
+            c0, _ = run('/venv/bin/python out/%s_demo.py' % x, src)
+            ca, _ = run('git apply %s' % patch, src)
+            ct, ot = run('/venv/bin/python -m pytest -q -p no:cacheprovider 2>&1 | tail -1', src)
+            c1, o1 = run('/venv/bin/python out/%s_demo.py' % x, src)
+            run('git checkout -- .', src)
+            v = {'applies': ca == 0, 'demo_exit_original': c0, 'demo_exit_changed': c1, 'tests_with_change': ot.strip(),
+                 'demo_tail_changed': o1.strip().splitlines()[-1:], 'verified_in': 'the sub-agent worktree (demo hard-wires its path)'}
         ok = v['applies'] and v['demo_exit_original'] == 0 and v['demo_exit_changed'] != 0 and v['tests_with_change'].startswith('1 failed, 124 passed')
         print(pid, x, 'CONFIRMED' if ok else 'REJECTED', v)
         if not ok:
@@ -85,7 +94,43 @@ def harvest(src):
         json.dump(m, open(os.path.join(dst, 'meta.json'), 'w'), indent=1)
 
 
+def benign(src):
+    """Behaviour-preserving refactorings: every check must stay silent (exit 0)."""
+    tag_ = os.path.basename(src.rstrip('/'))
+    out = os.path.join(src, 'out')
+    for fn in sorted(os.listdir(out)):
+        if not fn.endswith('.diff'):
+            continue
+        patch = os.path.join(out, fn)
+        d = scratch_repo()
+        try:
+            ca, oa = run('git apply --unsafe-paths --directory=%s %s' % (d, patch), '/')
+            ct, ot = run('/venv/bin/python -m pytest -q -p no:cacheprovider 2>&1 | tail -1', d)
+        finally:
+            shutil.rmtree(d, ignore_errors=True)
+        if ca != 0 or not ot.strip().startswith('1 failed, 124 passed'):
+            print(tag_, fn, 'REJECTED (applies=%s, tests=%s)' % (ca == 0, ot.strip()))
+            continue
+        res = evaluate(patch)
+        bad = {k: v for k, v in res.items() if v['exit'] != 0}
+        name = '%s-%s' % (tag_, fn[:-5])
+        dst = os.path.join(SEEDED, 'benign', name)
+        os.makedirs(dst, exist_ok=True)
+        shutil.copy(patch, os.path.join(dst, 'patch.diff'))
+        note = os.path.join(out, fn[:-5] + '.txt')
+        json.dump({'kind': 'behaviour-preserving refactoring', 'description': open(note).read() if os.path.exists(note) else '',
+                   'tests_with_change': ot.strip(), 'checks_not_silent': {k: v for k, v in bad.items()}},
+                  open(os.path.join(dst, 'meta.json'), 'w'), indent=1)
+        print(name, 'SILENT' if not bad else 'ALARM ' + ', '.join('%s(exit %d)' % (k, v['exit']) for k, v in bad.items()))
+        for k, v in bad.items():
+            print('      ', k, v['first'][:230])
+
+
 def main():
+    if sys.argv[1] == 'benign':
+        for s in sys.argv[2:]:
+            benign(s)
+        return
     if sys.argv[1] == 'harvest':
         for s in sys.argv[2:]:
             harvest(s)
